@@ -8,7 +8,7 @@ PID = 'C01'
 TAGS = ['abegin', 'awaited', 'spawn', 'now', 'tick', 'senter', 'sexit']
 RULE = ('seeded random programs of 1-4 activities mixing delays, `>=`/`==`/`<` date conditions (equal, zero, past, now, future '
         'dates), instant/eternity, `do(after=/at=)`, nested (until-)scopes with deadlines, cancels, flags; start times 0, 1/2, 1, '
-        '-1; crowds of 6-12 activities with distinct dates requested in arbitrary order; exact rational times; plus a float-time profile with non-dyadic dates (judge C01f: dates only); non-trivial = at '
+        '-1; crowds of 6-12 activities with distinct dates requested in arbitrary order; one `time + d` object kept in a variable and awaited by several activities at different times; exact rational times; plus a float-time profile with non-dyadic dates (judge C01f: dates only); non-trivial = at '
         'least 3 completed timed waits')
 
 PROFILE = {'flags': 2, 'depth': 3, 'until': 0.6, 'starts': [0, 0, F(1, 2), 1, -1, -2], 'rare_atoms': True,
@@ -74,6 +74,27 @@ def nontrivial(impl):
     return sum(1 for e in impl['events'] if ':awaited:' in e) >= 3
 
 
+def shared_delay(rng):
+    """one `time + d` object kept in a variable and awaited by several activities at different times (and again after a
+    wait was cut short by a deadline): every wait counts `d` from its own start"""
+    d = rng.choice([1, 2, 3, 5, F(5, 2)])
+    roots = [['prog', ['defcond', 0, ['delay', d]], ['await', ['ref', 0]], ['now'], ['await', ['ref', 0]], ['now']]]
+    for i in range(rng.randint(2, 5)):
+        prog = [['sleep', rng.choice([0, F(1, 2), 1, 2, 3, F(7, 2)])]]
+        for _ in range(rng.randint(1, 3)):
+            r = rng.random()
+            if r < 0.6:
+                prog += [['await', ['ref', 0]], ['now']]
+            elif r < 0.8:
+                # a wait cut short by a deadline, then a fresh one
+                prog += [['scope', 10 + i, ['delay', rng.choice([F(1, 2), 1, F(3, 2)])], ['await', ['ref', 0]], ['now']], ['now'],
+                         ['await', ['ref', 0]], ['now']]
+            else:
+                prog += [['sleep', rng.choice([F(1, 2), 1])], ['now']]
+        roots.append(['prog'] + prog)
+    return ['scenario', ['debug', 1], ['start', rng.choice([0, 0, 1])], ['flags', 1], ['locks', 0], ['roots'] + roots]
+
+
 def run(tier, seed, drv):
     from common import rng_for
     st = msuite.Suite(PID, drv, 'C01', TAGS)
@@ -88,8 +109,10 @@ def run(tier, seed, drv):
         rng = rng_for(seed, PID, i)
         if i % 4 == 3:
             fl.check(float_scenario(rng), nontrivial=nontrivial)
-        elif i % 4 == 1:
+        elif i % 8 == 1:
             st.check(crowd_scenario(rng), nontrivial=nontrivial, judge_extra=[('C07', 'user-errors')])
+        elif i % 8 == 5:
+            st.check(shared_delay(rng), nontrivial=nontrivial, judge_extra=[('C07', 'user-errors')])
         else:
             st.check(time_scenario(rng), nontrivial=nontrivial, judge_extra=[('C07', 'user-errors')])
     return st.finish()
